@@ -88,6 +88,11 @@ pub struct StreamSpec {
     /// (registered in between) must not notice
     #[serde(default)]
     pub churn: bool,
+    /// half-way through, with items still waiting in the publisher's batch, the publisher is
+    /// duplicated and the duplicate finished at once without having been given anything: it owns
+    /// nothing and must send nothing
+    #[serde(default)]
+    pub dup_idle: bool,
 }
 
 impl StreamSpec {
@@ -360,6 +365,16 @@ where
                         tokio::time::sleep(Duration::from_millis(300)).await;
                     }
                 }
+                if spec.dup_idle && i == items.len() / 2 && i > 0 {
+                    match ACTOR.scope(pub_group, publisher.duplicate()).await {
+                        Ok(d) => {
+                            if let Err(e) = ACTOR.scope(pub_group, d.finish()).await {
+                                rep.notes.push(format!("finish of the idle duplicate failed: {e}"));
+                            }
+                        }
+                        Err(e) => rep.notes.push(format!("duplicate() failed: {e}")),
+                    }
+                }
                 let r = if p == Pattern::SendEach { ACTOR.scope(pub_group, publisher.send(it.clone())).await } else { ACTOR.scope(pub_group, publisher.feed(it.clone())).await };
                 if std::env::var("DST_EVENTS").is_ok() {
                     rep.notes.push(format!("send {i} returned at {} ms", virtual_ms()));
@@ -521,11 +536,30 @@ pub fn gen_c03(rng: &mut Rng) -> E2eScript {
             }
         }
     }
+    // rarely, with batching: an item too large for any batch but below the frame limit, while
+    // smaller items wait in the batch: refused or not, it must not overtake them
+    let mut force_feed = false;
+    let mut batching = batching;
+    if batching.is_some() && payloads.len() >= 2 && rng.chance(1, 12) {
+        let at = rng.usize(1, payloads.len() - 1);
+        for p in payloads.iter_mut() {
+            p.0 = p.0.clamp(1, 3_000);
+        }
+        payloads.insert(at, (*rng.pick(&[1_034_000usize, 1_040_000, 1_046_000]), rng.next() / 3 * 3 + 2));
+        batching = Some((*rng.pick(&[50u32, 300]), 10_000));
+        comp = None;
+        force_feed = true;
+    }
+    // now and then, with batching: the publisher is duplicated while items wait in its batch
+    let dup_idle = batching.is_some() && !force_feed && payloads.len() >= 2 && rng.chance(1, 8);
+    if dup_idle {
+        batching = Some((*rng.pick(&[100u32, 300]), 10_000));
+        force_feed = true;
+    }
     // rarely: far more small messages than fit into one frame, under a batch size that would take
     // them all (the batch has to be cut by its encoded size, length markers included)
-    let mut batching = batching;
     let mut many_small = false;
-    if batching.is_some() && rng.chance(1, 20) {
+    if batching.is_some() && !force_feed && rng.chance(1, 20) {
         batching = Some((*rng.pick(&[1_000u32, 5_000, 20_000]), 10_000));
         let each = *rng.pick(&[60usize, 100, 100, 400, 1_000, 2_500]);
         let total = *rng.pick(&[1_200_000usize, 2_300_000]);
@@ -536,12 +570,12 @@ pub fn gen_c03(rng: &mut Rng) -> E2eScript {
             comp = None;
         }
     }
-    let pattern = if many_small { *rng.pick(&[Pattern::SendEach, Pattern::FeedThenFinish]) } else { *rng.pick(&[Pattern::SendEach, Pattern::SendEach, Pattern::FeedThenFlush, Pattern::FeedThenFinish, Pattern::SendAll]) };
-    let gaps_ms = if many_small || rng.chance(1, 2) { vec![] } else { (0..rng.usize(1, 4)).map(|_| *rng.pick(&[0u64, 0, 1, 50, 150, 2000])).collect() };
+    let pattern = if force_feed { *rng.pick(&[Pattern::FeedThenFlush, Pattern::FeedThenFinish]) } else if many_small { *rng.pick(&[Pattern::SendEach, Pattern::FeedThenFinish]) } else { *rng.pick(&[Pattern::SendEach, Pattern::SendEach, Pattern::FeedThenFlush, Pattern::FeedThenFinish, Pattern::SendAll]) };
+    let gaps_ms = if many_small || force_feed || rng.chance(1, 2) { vec![] } else { (0..rng.usize(1, 4)).map(|_| *rng.pick(&[0u64, 0, 1, 50, 150, 2000])).collect() };
     // late readers need the whole exchange to fit into the flow-control windows
     let early_readers = payloads.iter().map(|p| p.0).sum::<usize>() > 400_000 || rng.chance(1, 2);
     let churn = !many_small && rng.chance(1, 4);
-    E2eScript { net: mild_net(rng), rt_seed: rng.next(), streams: vec![StreamSpec { codec, comp, batching, n_subs: rng.usize(1, 2), payloads, pattern, gaps_ms, early_readers, churn }] }
+    E2eScript { net: mild_net(rng), rt_seed: rng.next(), streams: vec![StreamSpec { codec, comp, batching, n_subs: rng.usize(1, 2), payloads, pattern, gaps_ms, early_readers, churn, dup_idle }] }
 }
 
 /// C14: a swarm of transform configurations per run over one pair of connections.
@@ -555,7 +589,7 @@ pub fn gen_c14(rng: &mut Rng, thorough: bool) -> E2eScript {
             let n = rng.usize(1, 5);
             let payloads: Vec<(usize, u64)> = (0..n).map(|_| (gen_size(rng, big_ok), rng.next())).collect();
             let early_readers = payloads.iter().map(|p| p.0).sum::<usize>() > 400_000 || rng.chance(1, 2);
-            StreamSpec { codec, comp, batching, n_subs: 1, payloads, pattern: Pattern::SendEach, gaps_ms: vec![], early_readers, churn: false }
+            StreamSpec { codec, comp, batching, n_subs: 1, payloads, pattern: Pattern::SendEach, gaps_ms: vec![], early_readers, churn: false, dup_idle: false }
         })
         .collect();
     E2eScript { net: NetCfg { seed: rng.next(), loss_ppm: 0, dup_ppm: 0, min_delay_ms: 1, jitter_ms: 0 }, rt_seed: rng.next(), streams }
